@@ -334,6 +334,15 @@ def make_case_factory(scn, scratch, counters=None):
                             dleaf.makedir(anc)
                         if dleaf.listdir(anc):
                             continue
+                        root = getattr(dleaf, "path", None)
+                        if root is not None:
+                            import os as _os
+
+                            # a directory store: really empty on disk too (the operations above may have filed metadata
+                            # for entries that never received data; that is another matter)
+                            raw = _os.path.join(str(root), anc)
+                            if any(fs for _dp, _dn, fs in _os.walk(raw)):
+                                continue
                     except Exception:
                         continue
                     if counters is not None:
